@@ -4,7 +4,7 @@
    forall i < rows M, mvprod (rows M) (ent M) (fun k => nth k x zero) i = nth i b zero. *)
 From Coq Require Import List Arith ZArith Lia.
 From OV Require Import Base.Panic Base.Arith Base.Flat Model.Vector Model.Matrix Model.Solve Inst.QcInst
-  Proofs.Matrix Proofs.SolveBase Proofs.SolveBack Proofs.SolveGauss Proofs.Solve.
+  Proofs.Matrix Proofs.SolveBase Proofs.SolveBack Proofs.SolveGauss Proofs.Solve Proofs.SolveComplete Proofs.SolveQc.
 Import ListNotations.
 
 (* C01, Gaussian elimination half: whatever solve_basic returns solves the system (any field, any size). *)
@@ -71,3 +71,57 @@ Proof.
   intros i Hi. change (rows M3) with 3 in *.
   destruct i as [|[|[|i]]]; try lia; apply Qcanon.Qc_is_canon; vm_compute; reflexivity.
 Qed.
+
+(* Completeness (P2).  DESIGN Appendix E states it with MagLaws (abs x = 0 <-> x = 0, ltb irreflexive); that is
+   not enough: with ltb = const false both laws hold and max_abs_in_column never selects a pivot, so
+   solve_basic panics on [[0,1],[1,0]].  The statement therefore takes PivLaws (Proofs/SolveBase.v):
+   abs x = 0 <-> x = 0;  x <> 0 -> ltb 0 (abs x) = true;  ltb (abs x) 0 = false  (met by Q, R and |.| on C).
+   The left inverse is given entrywise as a function N (no well-formedness needed). *)
+Theorem solve_basic_complete : forall (A : Arith), FieldLaws A -> PivLaws A -> forall (M : matrix A) (b : list A),
+  wf M -> rows M = cols M -> length b = rows M -> 1 <= rows M ->
+  (exists N : nat -> nat -> A, left_inverse (rows M) N (ent M)) ->
+  exists x, solve_basic M b = Ok x.
+Proof. intros A FL PL M b. exact (solve_basic_complete_lemma FL PL M b). Qed.
+Check solve_basic_complete : forall (A : Arith), FieldLaws A -> PivLaws A -> forall (M : matrix A) (b : list A),
+  wf M -> rows M = cols M -> length b = rows M -> 1 <= rows M ->
+  (exists N : nat -> nat -> A, left_inverse (rows M) N (ent M)) ->
+  exists x, solve_basic M b = Ok x.
+Print Assumptions solve_basic_complete.
+
+Example solve_basic_complete_nonvacuous :
+  wf M3 /\ rows M3 = cols M3 /\ length b3 = rows M3 /\ 1 <= rows M3 /\
+  (exists N : nat -> nat -> AQ, left_inverse (rows M3) N (ent M3)).
+Proof.
+  split; [reflexivity|]. split; [reflexivity|]. split; [reflexivity|]. split; [cbn; lia|].
+  exists (ent N3). exact M3_left_inverse.
+Qed.
+
+(* Corollaries at Qc, the arithmetic of the exact tier of the correspondence check (AQ_FieldLaws, AQ_PivLaws):
+   a rational system with a left inverse is solved by solve_basic, and the answer is its only solution. *)
+Theorem solve_basic_sound_Qc : forall (M : matrix AQ) (b x : list AQ),
+  wf M -> rows M = cols M -> length b = rows M -> solve_basic M b = Ok x ->
+  length x = rows M /\
+  forall i, i < rows M -> mvprod (rows M) (ent M) (fun k => nth k x zero) i = nth i b zero.
+Proof. exact solve_basic_sound_Qc_lemma. Qed.
+Check solve_basic_sound_Qc : forall (M : matrix AQ) (b x : list AQ),
+  wf M -> rows M = cols M -> length b = rows M -> solve_basic M b = Ok x ->
+  length x = rows M /\
+  forall i, i < rows M -> mvprod (rows M) (ent M) (fun k => nth k x zero) i = nth i b zero.
+Print Assumptions solve_basic_sound_Qc.
+
+Theorem solve_basic_correct_Qc : forall (M : matrix AQ) (b : list AQ),
+  wf M -> rows M = cols M -> length b = rows M -> 1 <= rows M ->
+  (exists N : nat -> nat -> AQ, left_inverse (rows M) N (ent M)) ->
+  exists x, solve_basic M b = Ok x /\ length x = rows M /\
+    (forall i, i < rows M -> mvprod (rows M) (ent M) (fun k => nth k x zero) i = nth i b zero) /\
+    (forall y, length y = rows M ->
+       (forall i, i < rows M -> mvprod (rows M) (ent M) (fun k => nth k y zero) i = nth i b zero) -> y = x).
+Proof. exact solve_basic_correct_Qc_lemma. Qed.
+Check solve_basic_correct_Qc : forall (M : matrix AQ) (b : list AQ),
+  wf M -> rows M = cols M -> length b = rows M -> 1 <= rows M ->
+  (exists N : nat -> nat -> AQ, left_inverse (rows M) N (ent M)) ->
+  exists x, solve_basic M b = Ok x /\ length x = rows M /\
+    (forall i, i < rows M -> mvprod (rows M) (ent M) (fun k => nth k x zero) i = nth i b zero) /\
+    (forall y, length y = rows M ->
+       (forall i, i < rows M -> mvprod (rows M) (ent M) (fun k => nth k y zero) i = nth i b zero) -> y = x).
+Print Assumptions solve_basic_correct_Qc.
